@@ -201,7 +201,8 @@ def program(draw, max_sessions=2, max_calls=3, max_objs=4, forms=None, names=Non
                                  'values': draw(channel_values(form, max_len)), 'props': draw(props(2))})
             calls.append(objs)
         sessions.append(calls)
-    return {'version': draw(st.sampled_from([4712, 4713])), 'dest': dest, 'index': index, 'sessions': sessions}
+    return {'version': draw(st.sampled_from([4712, 4713])), 'dest': dest, 'index': index, 'sessions': sessions,
+            'rewrite': draw(st.sampled_from([None, None, 'one_segment', 'segment_per_object']))}
 
 
 # ----------------------------------------------------------------------------------------------
